@@ -235,7 +235,13 @@ def groupnormalization_20_21(node: ir.Node, op):
         bias_expand = op.Expand(bias_reshape_1, expand_sizes)
         bias_reshape_2 = op.Reshape(bias_expand, reshape_2_sizes)
 
-        return op.GroupNormalization(x, scale_reshape_2, bias_reshape_2, num_groups=num_groups)
+        return op.GroupNormalization(
+            x,
+            scale_reshape_2,
+            bias_reshape_2,
+            num_groups=num_groups,
+            epsilon=node.attributes.get_float("epsilon", None),
+        )
     return None
 
 
